@@ -252,12 +252,12 @@ PROPS = {
     "C22": {
         "title": "Special-mode injections are never silently lost",
         "units": ["V4_inject", "V4b_iter_inject"],
-        "obligations": ["V4b_iter_inject.ModuleIterator.*", "V4b_iter_inject.fn:ModuleIterator as *", "V4b_iter_inject.fn:Functions::get_mut"] + ["V4_inject.InstrumentationFlag.add_instr.*", "V4_inject.fn:InstrumentationFlag::add_instr", "V4_inject.is_block_style_op.*", "V4_inject.is_branching_op.*",
+        "obligations": ["V4b_iter_inject.ModuleIterator.*", "V4b_iter_inject.fn:ModuleIterator as *", "V4b_iter_inject.ComponentIterator.*", "V4b_iter_inject.fn:ComponentIterator as *", "V4b_iter_inject.fn:Functions::get_mut"] + ["V4_inject.InstrumentationFlag.add_instr.*", "V4_inject.fn:InstrumentationFlag::add_instr", "V4_inject.is_block_style_op.*", "V4_inject.is_branching_op.*",
                         "V4_inject.fn:InstrumentationFlag::is_block_style_op", "V4_inject.fn:InstrumentationFlag::is_branching_op",
                         "V4_inject.FuncInstrFlag.*", "V4_inject.fn:FuncInstrFlag::add_instr", "V4_inject.fn:Instruction::add_instr",
                         "V4_inject.LocalFunction.*", "V4_inject.fn:LocalFunction::add_instr",
                         "V4_inject.FunctionModifier.*", "V4_inject.fn:FunctionModifier as *"],
-        "glue": ["ComponentIterator injection methods delegate to LocalFunction::add_instr (one match + call each): not under contract (the ModuleIterator ones are, unit V4b)",
+        "glue": ["ComponentIterator::inject_at and the iterators' clear / tag / empty_alternate methods are not under contract (inject, add_instr_at, empty_block_alt_at of both iterators and ModuleIterator::inject_at are, unit V4b)",
                  "that has_special_instr == true suffices for resolution is the first `if` of Module::resolve_special_instrumentation (driver: not under contract)"],
         "design_ref": "DESIGN.md §5 C22",
         "level_text": "Every injection entry point under contract either requires the mode to be applicable to the instruction (the code panics otherwise = rejected at the call) or leaves has_special_instr == old || is_special(mode); proved for all instructions, modes and indices.",
@@ -285,13 +285,14 @@ PROPS = {
     },
     "C26": {
         "title": "Component iteration and injection match module-level behaviour",
-        "units": ["V5_iter"],
-        "obligations": ["V5_iter.ComponentSubIterator.*", "V5_iter.fn:ComponentSubIterator::*", "V5_iter.ModuleSubIterator.*", "V5_iter.fn:ModuleSubIterator::*",
+        "units": ["V5_iter", "V4b_iter_inject"],
+        "obligations": ["V4b_iter_inject.ComponentIterator.*", "V4b_iter_inject.fn:ComponentIterator as *", "V4b_iter_inject.ModuleIterator.*", "V4b_iter_inject.fn:ModuleIterator as *",
+                        "V5_iter.ComponentSubIterator.*", "V5_iter.fn:ComponentSubIterator::*", "V5_iter.ModuleSubIterator.*", "V5_iter.fn:ModuleSubIterator::*",
                         "V5_iter.handle_skips.*", "V5_iter.fn:next_module_with_work", "V5_iter.fn:lemma_next_live"],
-        "glue": ["ComponentIterator injection methods (component_iterator.rs) delegate to the same LocalFunction methods as ModuleIterator: compared by reading, not under contract",
+        "glue": ["of the ComponentIterator injection methods, inject / set_instrument_mode_at / add_instr_at / empty_block_alt_at are under contract (same effect predicate `lf_added` as the ModuleIterator ones, on the addressed module, other modules untouched); inject_at, clear_instr_at, empty_alternate_at, append_tag_at and add_local are compared by reading only",
                  "ComponentSubIterator::new / reset (HashMap clone plumbing) and ComponentIterator::new (metadata construction) are not under contract"],
         "design_ref": "DESIGN.md §4 V5, §5 C26",
-        "level_text": "The component-level step is proved to be the module-level step inside a module and, at a module's end, the start state of the next module that has an unskipped function; iteration only - injection equivalence is glue.",
+        "level_text": "The component-level step is proved to be the module-level step inside a module and, at a module's end, the start state of the next module that has an unskipped function; the main injection entry points of both iterators are proved to have the same effect (the same predicate over LocalFunction::add_instr) on the function the iterator points at.",
     },
     "C14": {
         "title": "Added locals get fresh indices of the requested type",
